@@ -501,6 +501,112 @@ def send_message_once_case(res, rng):
         p._thread.trigger_receiver()
 
 
+def one_way_send_case(res):
+    """`send_stream_function` of a function that needs no reply (S6F12, S1F2): the transport fails the write — the caller must be told
+    (False), exactly as for a function that is answered."""
+    import secsgem.secs.functions as F
+    for name, fn in (("S6F12", F.SecsS06F12(0)), ("S1F2", F.SecsS01F02())):
+        s, p, c = M.new_protocol()
+        c.send_result = False
+        p._thread.start()
+        out, done = [], threading.Event()
+        threading.Thread(target=lambda: (out.append(p.send_stream_function(fn)), done.set()), daemon=True).start()
+        finished = M.wait_event(done, 5)
+        case = {"kind": "one-way-send", "function": name, "send_data": "returns False"}
+        res.count(("one-way-send", name), sample={"op": "send_stream_function without reply, transport fails", "function": name, "result": out[:1]} if name == "S6F12" else None)
+        res.bump("one_way_send", f"{name} result={out[:1]}")
+        if finished and out and out[0] is not False:
+            res.violate("send-true-on-failure", f"send_stream_function({name}) returned {out[0]!r} although the connection's send_data returned False",
+                        case, False, out[0])
+        elif not finished:
+            res.violate("send-message-hang", "send_stream_function did not return within the bound", case)
+        p._thread._stop_receiver_thread = True
+        p._thread.trigger_receiver()
+
+
+def interleaved_writer_case(res, rng, size=200 * 1024):
+    """A message larger than the socket buffers goes to a slowly draining peer (many partial writes) while another thread sends
+    Linktest.req.  Whatever the timing: the byte stream the peer reads has to be a concatenation of WHOLE frames — the data frame intact, the
+    control frames before or after it, never inside it."""
+    sk = socket.socket()
+    sk.bind(("127.0.0.1", 0))
+    port = sk.getsockname()[1]
+    sk.close()
+    p = secsgem.hsms.HsmsProtocol(secsgem.hsms.HsmsSettings(address="127.0.0.1", port=port, connect_mode=secsgem.hsms.HsmsConnectMode.PASSIVE, t6=1))
+    p.enable()
+    case = {"kind": "interleaved-writer", "size": size}
+    peer = socket.socket()
+    peer.setsockopt(socket.SOL_SOCKET, socket.SO_RCVBUF, 16 * 1024)
+    end = time.monotonic() + M.bound(3.0)
+    while True:
+        try:
+            peer.connect(("127.0.0.1", port))
+            break
+        except OSError:
+            if time.monotonic() >= end:
+                res.violate("loopback-listen", "passive endpoint does not accept a connection", case)
+                return
+            time.sleep(0.05)
+    M.wait_until(lambda: p._connection._sock is not None and p._connection._thread_running, 5.0)
+    p._connection._sock.setsockopt(socket.SOL_SOCKET, socket.SO_SNDBUF, 16 * 1024)       # capacity only: forces partial writes
+    body = rng.bytes(size)
+    msg = secsgem.hsms.HsmsMessage(secsgem.hsms.HsmsStreamFunctionHeader(4711, 7, 3, False, 0), body)
+    frame = msg.blocks[0].encode()
+    received = bytearray()
+    stop = threading.Event()
+
+    def reader():
+        peer.settimeout(0.2)
+        while not stop.is_set():
+            try:
+                d = peer.recv(8 * 1024)
+            except OSError:
+                continue
+            if not d:
+                break
+            received.extend(d)
+            time.sleep(0.004)
+    threading.Thread(target=reader, daemon=True).start()
+    result, sent_done = [], threading.Event()
+    threading.Thread(target=lambda: (result.append(p.send_message(msg)), sent_done.set()), daemon=True).start()
+    M.wait_until(lambda: len(received) > 20000, 10.0)                     # the large frame is on its way, partially written
+    lt_done = threading.Event()
+
+    def linktests():
+        for _ in range(3):
+            p.send_linktest_req()                                         # T6 = 1 s: returns without an answer
+        lt_done.set()
+    threading.Thread(target=linktests, daemon=True).start()
+    ok_send = M.wait_event(sent_done, 60)
+    M.wait_event(lt_done, 20)
+    M.wait_until(lambda: len(received) >= len(frame) + 3 * 14, 10.0)
+    stop.set()
+    raw = bytes(received)
+    # parse into whole frames
+    frames, i, broken = [], 0, None
+    while i < len(raw):
+        if len(raw) - i < 14:
+            broken = f"{len(raw) - i} stray bytes at offset {i}"
+            break
+        n = int.from_bytes(raw[i:i + 4], "big") + 4
+        if n < 14 or n > len(frame) or i + n > len(raw) or raw[i + 9] not in (0, 5):
+            broken = f"no whole frame at offset {i} (length field {n - 4}, SType byte {raw[i + 9]})"
+            break
+        frames.append(raw[i:i + n])
+        i += n
+    res.count(("interleaved-writer", size), sample={"op": "large send to a slow peer + Linktest.req from another thread", "size": size,
+                                                   "send_message": result, "frames_read": [len(f) for f in frames][:6]})
+    res.bump("interleaved_writer", f"send_message={result} whole_frames={broken is None and frame in frames}")
+    if not ok_send:
+        res.violate("loopback-send-hang", "send_message of the large frame did not return within the bound although the peer reads", case)
+    elif result == [True] and (broken is not None or frames.count(frame) != 1):
+        res.violate("frames-interleaved", "send_message returned True for the large frame, but the peer's byte stream is not a concatenation of "
+                    "whole frames with that frame in it exactly once (another writer's bytes landed between its partial writes)", case,
+                    "whole frames", {"parse": broken, "frame_lengths": [len(f) for f in frames][:8], "bytes_read": len(raw), "frame_len": len(frame)})
+    threading.Thread(target=p.disable, daemon=True).start()
+    peer.close()
+
+
 def send_message_truthful_case(res):
     """`Protocol.send_message` may say True only for blocks that were sent: a send that is still in progress after T3 (1 s here) and then
     fails must not have been reported as successful in the meantime."""
@@ -582,6 +688,8 @@ def main():
     finally:
         tcp_mod.select = REAL_SELECT_MODULE
     M.guarded(res, "send_message", lambda: send_message_truthful_case(res))
+    M.guarded(res, "one-way send", lambda: one_way_send_case(res))
+    M.guarded(res, "interleaved writer", lambda: interleaved_writer_case(res, rng.fork("ilw")))
     M.guarded(res, "loopback", lambda: loopback_part(res, rng.fork("loop"), big))
     res.notes.append("the scripted socket raises a BaseException when its oracle is exhausted: that run is 'pending' (the real loop would go on)")
     res.notes.append("kernel TCP (bytes accepted by send() arrive once, in order) is assumed by the theorems and exercised only by the loopback part")
